@@ -190,11 +190,10 @@ class t2incon(object):
                             self.simulator = 'TOUGHREACT'
                         vals, more = [], True
                         while more:
-                            linevals = infile.read_values('incon2')
-                            while linevals and linevals[-1] is None: linevals.pop()
-                            vals += linevals
+                            vals += infile.read_values('incon2')
                             more = False if num_variables is None else \
                                    len(vals) < num_variables
+                        while vals and vals[-1] is None: vals.pop()
                         incon = t2blockincon(vals, blkname, porosity, permeability,
                                              nseq, nadd)
                         self.add_incon(incon)
